@@ -118,5 +118,6 @@ def bool_simplify(t):
             return z3.BoolVal(is_and)
         if len(out) == 1:
             return out[0]
+        out.sort(key=lambda c: c.sexpr())      # canonical argument order (And/Or are commutative)
         return z3.And(*out) if is_and else z3.Or(*out)
     return t
